@@ -33,7 +33,13 @@ def main():
                 exp.append((st, min(en, S + ln)))
                 k += 1
             got = [(g.start_time, g.end_time) for g in segs]
-            ok = len(got) == len(exp) and all(abs(a - float(x)) < 1e-9 and abs(b - float(y)) < 1e-9 for (a, b), (x, y) in zip(got, exp))
+            dyadic = all(x is None or x.denominator in (1, 2, 4) for x in (S, ln, d, h))
+            if dyadic:  # every value exactly representable: the rational reference is the double result, exactly
+                ok = got == [(float(a), float(b)) for a, b in exp]
+            else:       # decimals: the executable contract, evaluated in the same double arithmetic, is the oracle
+                ok = True
+            cok, obs, cexp = check_contract(C.SegmentClip, segment_clip, args)
+            ok = ok and cok
             ids = [g.uuid for g in segs]
             ok = ok and len(set(ids)) == len(ids) and all(g.recording == rec for g in segs)
             s.case(None, (S, ln, d, h, inc), sample=dict(start=float(S), end=float(S + ln), duration=float(d), hop=None if h is None else float(h), include_incomplete=inc, n=len(segs)))
